@@ -749,6 +749,10 @@ class Interp:
         keys = t["keys"]            # list of col exprs
         kidx = [lookup(rel.cols, e[1], e[2]) for e in keys]
         inner = t["pipe"]
+        if t.get("_frame") is not None:
+            # `window <frame> (group k (...))`: the frame of the enclosing window block applies to the window
+            # functions of the group's pipeline (a `window` inside sets its own)
+            inner = [dict(x, _frame=t["_frame"]) for x in inner]
         if not keys:
             # group {} behaves as no grouping and keeps the order (#5100)
             return self.pipeline(inner, Rel(rel.cols, list(rel.rows), rel.okeys, rel.sort_exprs))
